@@ -18,6 +18,15 @@ running thread first when it is still enabled, then by thread id), so a run repl
 exactly.  No enabled thread while some thread is unfinished = DEADLOCK (reported, never
 hangs); a watchdog (lock time-outs + SIGALRM) bounds every run.
 
+The single-threaded fallback: fs.tools.is_thread_safe is documented as "all filesystems are thread
+safe", read from the ``thread_safe`` key of getmeta() (a key "may not be present if there is no way to
+know the value").  `composite_cases` hands the tracked filesystems to the calls inside every composite /
+wrapper kind (WRAP_KINDS: bare, SubFS, WrapFS, read_only, cache_directory, MountFS, MultiFS, SubFS of a
+MountFS) with the member declaring thread_safe False, nothing, or True: worker threads may be used exactly
+when every filesystem handed to the call reports thread_safe True (and no wrapped member declared
+otherwise); in the fallback every file operation happens on the calling thread; the destination tree equals
+the workers=0 run of the same configuration.
+
 Model side: coq/Conc/Copier.v (same atomic actions), theorems in coq/Conc/CopierProofs.v,
 re-checked through coq/Props/C09.v by common.preflight.
 """
@@ -53,6 +62,12 @@ ORIG_RUN = _bulk._Worker.__dict__["run"]      # the function of /repo, run by th
 
 WATCHDOG_S = 20.0
 THEOREM = "Props/C09.v (copier_exit, copier_progress on Conc/Copier.v)"
+
+# TODO: misbehaviours of the UNCHANGED library exposed by the coverage of this module that are not in
+# known_findings.json yet (signature strings).  They are routed through report.known_match first; while a
+# signature is listed here and not yet known it is recorded in the evidence (coverage['pending_findings'])
+# instead of failing the check.
+PENDING_FINDINGS = []
 
 
 class Abort(BaseException):
@@ -471,7 +486,10 @@ class TrackFS(WrapFS):
     def getmeta(self, namespace="standard"):
         meta = dict(self.delegate_fs().getmeta(namespace=namespace))
         if namespace == "standard":
-            meta["thread_safe"] = self._thread_safe
+            if self._thread_safe is None:
+                meta.pop("thread_safe", None)      # a filesystem that declares nothing
+            else:
+                meta["thread_safe"] = self._thread_safe
         return meta
 
     def upload(self, path, file, chunk_size=None, **options):
@@ -535,9 +553,51 @@ def new_backend(kind, tmpdirs):
 def norm_case(case):
     c = dict(function="copy_fs", workers=0, tree=dict(dirs=[], files=[]), preserve_time=False,
              chunk=None, fault=None, backend="memory", grain="io", dst_pre=None,
-             copy_if_newer=True, src_path="/", dst_path="/", thread_safe=True, schedule=[])
+             copy_if_newer=True, src_path="/", dst_path="/", thread_safe=True, schedule=[],
+             wrap=None, wrap_side="src")
     c.update(case)
     return c
+
+
+# composite / wrapper kinds a tracked filesystem is handed to the call in (case["wrap"]); case["wrap_side"] says
+# which of the two filesystems is wrapped ("src" / "dst" / "both"; the other one is the bare TrackFS declaring
+# thread_safe True); case["thread_safe"] is what the wrapped member declares: True, False or None (no key)
+WRAP_KINDS = ("bare", "sub", "wrapfs", "read_only", "cache_directory", "multi", "mount", "mount-sub")
+
+
+def wrap_member(kind, track, root):
+    """(filesystem handed to the call, path of the tree inside it)."""
+    import fs.wrap
+    from fs.mountfs import MountFS
+    from fs.multifs import MultiFS
+    from fs.subfs import SubFS
+    if kind == "bare":
+        return track, "/"
+    if kind == "sub":
+        return SubFS(track, root), "/"
+    if kind == "wrapfs":
+        return WrapFS(track), "/"
+    if kind == "read_only":
+        return fs.wrap.read_only(track), "/"
+    if kind == "cache_directory":
+        return fs.wrap.cache_directory(track), "/"
+    if kind == "multi":
+        m = MultiFS(auto_close=False)
+        m.add_fs("only", track, write=True)
+        return m, "/"
+    if kind in ("mount", "mount-sub"):
+        m = MountFS(auto_close=False)
+        m.mount("data", track)
+        if kind == "mount-sub":
+            return m.opendir("/data"), "/"
+        return m, "/data"
+    raise ValueError("unknown wrapper kind %r" % (kind,))
+
+
+def reports_thread_safe(f):
+    """The documented rule (fs.tools.is_thread_safe / FS.getmeta): the filesystem REPORTS that it is thread safe."""
+    meta = f.getmeta()
+    return "thread_safe" in meta and meta["thread_safe"] is True
 
 
 class Result(object):
@@ -552,17 +612,38 @@ def execute(case, schedule=None, policy=None, rnd=None):
         schedule = case["schedule"]
     tmpdirs = []
     res = Result()
-    src_in = new_backend(case["backend"], tmpdirs)
-    dst_in = new_backend(case["backend"], tmpdirs)
+    src_raw = new_backend(case["backend"], tmpdirs)
+    dst_raw = new_backend(case["backend"], tmpdirs)
+    src_in, dst_in = src_raw, dst_raw
     try:
+        wrap = case["wrap"]
+        wsides = () if not wrap else (("src", "dst") if case["wrap_side"] == "both" else (case["wrap_side"],))
+        sub_root = "/r"
+        if wrap == "sub":
+            # the tree lives in a sub-directory of the storage; src_in / dst_in are views of it
+            if "src" in wsides:
+                src_in = src_raw.makedir(sub_root)
+            if "dst" in wsides:
+                dst_in = dst_raw.makedir(sub_root)
         populate(src_in, case["tree"], 1000000000)
         if case["dst_pre"]:
             populate(dst_in, case["dst_pre"], 1000500000)
         pt = bool(case["preserve_time"])
         src_before = snapshot(src_in, True)
         tracker = Tracker(case["fault"], case["chunk"])
-        src = TrackFS(src_in, "src", tracker, case["thread_safe"])
-        dst = TrackFS(dst_in, "dst", tracker, case["thread_safe"])
+        if wrap:
+            # the wrapped member declares case["thread_safe"]; a side that is not wrapped declares True
+            src = TrackFS(src_raw, "src", tracker, case["thread_safe"] if "src" in wsides else True)
+            dst = TrackFS(dst_raw, "dst", tracker, case["thread_safe"] if "dst" in wsides else True)
+        else:
+            src = TrackFS(src_raw, "src", tracker, case["thread_safe"])
+            dst = TrackFS(dst_raw, "dst", tracker, case["thread_safe"])
+        members_declare_safe = src._thread_safe is True and dst._thread_safe is True
+        sroot = droot = "/"
+        if "src" in wsides:
+            src, sroot = wrap_member(wrap, src, sub_root)
+        if "dst" in wsides:
+            dst, droot = wrap_member(wrap, dst, sub_root)
         sched = Sched(schedule, policy, rnd, case["grain"])
         n = case["workers"]
         fn = case["function"]
@@ -584,11 +665,23 @@ def execute(case, schedule=None, policy=None, rnd=None):
         CUR = sched
         try:
             try:
-                if fn == "copy_fs":
+                if fn in ("mirror", "move_fs"):
+                    # no path arguments: a tree below the root of a composite is handed over as a view
+                    if sroot != "/":
+                        src = src.opendir(sroot)
+                    if droot != "/":
+                        dst = dst.opendir(droot)
+                    sroot = droot = "/"
+                # the documented rule, evaluated on the filesystems the call is given
+                res.reported_safe = reports_thread_safe(src) and reports_thread_safe(dst)
+                res.threads_allowed = res.reported_safe and members_declare_safe
+                if fn == "copy_fs" and sroot == "/" and droot == "/":
                     fs.copy.copy_fs(src, dst, workers=n, preserve_time=pt)
-                elif fn == "copy_dir":
-                    fs.copy.copy_dir(src, case["src_path"], dst, case["dst_path"], workers=n,
-                                     preserve_time=pt)
+                elif fn in ("copy_dir", "copy_fs"):
+                    sp, dp = (case["src_path"], case["dst_path"]) if fn == "copy_dir" else ("/", "/")
+                    fs.copy.copy_dir(src, fs.path.join(sroot, sp.lstrip("/")) if sroot != "/" else sp,
+                                     dst, fs.path.join(droot, dp.lstrip("/")) if droot != "/" else dp,
+                                     workers=n, preserve_time=pt)
                 elif fn == "mirror":
                     fs.mirror.mirror(src, dst, copy_if_newer=case["copy_if_newer"], workers=n,
                                      preserve_time=pt)
@@ -631,6 +724,8 @@ def execute(case, schedule=None, policy=None, rnd=None):
         res.n_threads = len(sched.threads) - 1
         res.n_files = len(tracker.files)
         res.worker_io = sum(v for k, v in tracker.io_by_tid.items() if k != 0)
+        res.foreign_files = [(f.side, f.path, f.opened_by, f.closed_by) for f in tracker.files
+                             if f.opened_by != 0 or f.closed_by not in (None, 0)]
         res.blocked_put = sched.blocked_put
         res.blocked_get = sched.blocked_get
         res.max_qlen = sched.max_qlen
@@ -643,7 +738,7 @@ def execute(case, schedule=None, policy=None, rnd=None):
             res.src_after = res.dst_after = None
         return res
     finally:
-        for f in (src_in, dst_in):
+        for f in (src_raw, dst_raw):
             try:
                 f.close()
             except Exception:  # noqa
@@ -659,7 +754,8 @@ def reference(case):
     """Destination (and source) produced by the single threaded run on the same input."""
     case = norm_case(case)
     key = json.dumps([case[k] for k in ("function", "tree", "preserve_time", "backend", "dst_pre",
-                                        "copy_if_newer", "src_path", "dst_path")], sort_keys=True)
+                                        "copy_if_newer", "src_path", "dst_path", "wrap", "wrap_side") +
+                      (("thread_safe",) if case["wrap"] else ())], sort_keys=True)
     if key not in _REF:
         c = dict(case, workers=0, fault=None, schedule=[], chunk=None, grain="queue")
         r = execute(c)
@@ -691,8 +787,18 @@ def judge(case, res):
         v.append(("returned-before-workers-finished", dict(alive=res.alive)))
     if res.unclosed:
         v.append(("file-not-closed", dict(files=res.unclosed)))
-    if not case["thread_safe"] and res.n_threads:
-        v.append(("workers-used-on-non-thread-safe-fs", dict(threads=res.n_threads)))
+    allowed = getattr(res, "threads_allowed", case["thread_safe"] is True)
+    if not allowed and (res.n_threads or res.worker_io or res.foreign_files):
+        v.append(("workers-used-on-non-thread-safe-fs",
+                  dict(threads=res.n_threads, file_operations_in_worker_threads=res.worker_io,
+                       files_opened_or_closed_by_workers=res.foreign_files[:6],
+                       wrapper=case["wrap"], wrapped_side=case["wrap_side"] if case["wrap"] else None,
+                       member_declares=case["thread_safe"],
+                       filesystems_report_thread_safe=getattr(res, "reported_safe", None))))
+    if allowed and case["workers"] > 0 and res.status == "ok" and res.n_threads != case["workers"]:
+        v.append(("no-worker-threads-although-all-filesystems-report-thread-safe",
+                  dict(threads=res.n_threads, workers=case["workers"], wrapper=case["wrap"],
+                       member_declares=case["thread_safe"])))
     fired = res.fired
     if fired is None:
         ref = reference(case)
@@ -881,7 +987,8 @@ def case_key(case):
     c = norm_case(case)
     return json.dumps([c[k] for k in ("function", "workers", "tree", "preserve_time", "chunk",
                                       "fault", "backend", "grain", "dst_pre", "copy_if_newer",
-                                      "src_path", "dst_path", "thread_safe")], sort_keys=True)
+                                      "src_path", "dst_path", "thread_safe", "wrap", "wrap_side")],
+                      sort_keys=True)
 
 
 class Stats(object):
@@ -1643,6 +1750,92 @@ def samefs_cases(report):
     return dict(samefs_runs=n, samefs_divergences=len(bad))
 
 
+COMPOSITE_TREES = [
+    dict(dirs=["/d/e"], files=[["/a", 0], ["/d/b", 6], ["/d/e/c", 3]]),
+    dict(dirs=["/e"], files=[["/a", 6], ["/d/b", 2]]),
+    dict(dirs=["/d"], files=[["/f%d" % i, (i * 5) % 13] for i in range(6)] +
+         [["/d/g%d" % i, i] for i in range(5)]),           # more files than queue slots
+    dict(dirs=["/d"], files=[]),
+]
+
+
+def composite_cases(report):
+    """The single-threaded fallback through every composite / wrapper kind (see the module docstring): for every
+    kind x wrapped side x member declaration (False / nothing / True) x function x workers > 0, under scheduler
+    controlled threads with a random schedule.  judge() checks: worker threads exactly when the documented rule
+    allows them, otherwise every file operation on the calling thread; tree and outcome equal to the workers=0 run
+    of the same configuration; files closed; workers joined."""
+    thorough = report.tier == "thorough"
+    rnd = random.Random(report.seed * 7907 + 23)
+    runs = 0
+    by_kind = collections.Counter()
+    by_decl = collections.Counter()
+    fallback_runs = threaded_runs = 0
+    outcomes = collections.Counter()
+    files_copied = 0
+    viols = []
+    for kind in WRAP_KINDS:
+        sides = ("src",) if kind == "read_only" else ("src", "dst", "both")
+        for side in sides:
+            for decl in (False, None, True):
+                for fn in ("copy_fs", "copy_dir", "mirror", "move_fs"):
+                    for workers in ((1, 2, 4) if thorough else (rnd.choice([1, 2]), 4)):
+                        for rep in range(3 if thorough else 1):
+                            tree = rnd.choice(COMPOSITE_TREES[:3]) if rnd.random() < 0.9 else COMPOSITE_TREES[3]
+                            case = dict(function=fn, workers=workers, tree=tree, chunk=rnd.choice([None, 2, 4]),
+                                        grain=rnd.choice(["io", "queue"]), preserve_time=rnd.random() < 0.3,
+                                        thread_safe=decl, wrap=kind, wrap_side=side)
+                            if thorough and rnd.random() < 0.15:
+                                case["backend"] = "osfs"
+                            if fn == "copy_dir":
+                                case["src_path"], case["dst_path"] = rnd.choice([("/", "/t"), ("/d", "/t/u"), ("/d", "/")])
+                            if fn == "mirror":
+                                case["copy_if_newer"] = rnd.random() < 0.5
+                                if rnd.random() < 0.5:
+                                    case["dst_pre"] = random_pre(rnd, tree)
+                            policy = rnd.choice(["uniform", "sticky", "producer_first", "workers_first"])
+                            res = execute(case, [], policy, rnd)
+                            got = judge(case, res)
+                            runs += 1
+                            by_kind[kind] += 1
+                            by_decl[repr(decl)] += 1
+                            outcomes[res.status if res.exc is None else "raise:" + type(res.exc).__name__] += 1
+                            files_copied += res.n_files // 2
+                            if res.n_threads:
+                                threaded_runs += 1
+                            else:
+                                fallback_runs += 1
+                            if got:
+                                viols.append((case, realized(res), [k for k, _d in got]))
+    seen = set()
+    pending = {}
+    for case, schedule, kinds in viols:
+        sig = "composite[%s] %s" % (case["wrap"], signature(case, kinds))
+        if sig in seen:
+            continue
+        seen.add(sig)
+        known = report.known_match(sig)
+        if known is None and sig in PENDING_FINDINGS:
+            pending[sig] = dict(case=case, schedule=schedule)
+            continue
+        obs = describe(case, schedule)
+        if known is not None:
+            report.known_finding(known, dict(case=case, schedule=schedule, observed=obs))
+            continue
+        if len(seen) > 8:
+            continue
+        payload = dict(norm_case(case))
+        payload.update(kind="+".join(sorted(kinds)), schedule=schedule, observed=obs, signature=sig,
+                       theorem=THEOREM,
+                       rule="fs.tools.is_thread_safe: worker threads only when all filesystems report thread_safe True")
+        report.violation(payload)
+    return dict(composite_runs=runs, composite_runs_by_wrapper=dict(by_kind),
+                composite_runs_by_member_declaration=dict(by_decl),
+                composite_runs_single_threaded=fallback_runs, composite_runs_with_worker_threads=threaded_runs,
+                composite_outcomes=dict(outcomes), composite_file_transfers=files_copied,
+                composite_divergences=len(viols), pending_findings=pending)
+
+
 def run(report):
     proof = common.preflight(report)
     st = explore(report.tier, report.seed)
@@ -1650,6 +1843,7 @@ def run(report):
     report_violations(report, st)
     cov = coverage(st, report.tier)
     cov.update(samefs_cases(report))
+    cov.update(composite_cases(report))
     return report.finish(proof, cov, assumptions=ASSUMPTIONS)
 
 
